@@ -295,10 +295,10 @@ impl Prop for NoiseStats {
         "noise-stats".into()
     }
     fn rule(&self) -> String {
-        "all frames unvoiced, >= 48000 samples, with and without an LPF stream (h is irrelevant in unvoiced frames): |mean| < 0.03, variance within 5 %, |autocorrelation| at lags 1..8 < 0.03, no exact zeros. Non-trivial: every case; distinct by (rate, frame period, frames, LPF length)".into()
+        "all frames unvoiced, >= 48000 samples (one case in ten: 1..4 million samples from one vocoder), with and without an LPF stream (h is irrelevant in unvoiced frames): |mean| < 0.03, variance within 5 %, |autocorrelation| at lags 1..8 < 0.03, no exact zeros. Non-trivial: every case; distinct by (rate, frame period, frames, LPF length)".into()
     }
     fn tape_len(&self, _: Tier) -> usize {
-        8
+        12
     }
     fn cases(&self, tier: Tier) -> u32 {
         tier.pick(96, 600)
@@ -306,7 +306,9 @@ impl Prop for NoiseStats {
     fn decode(&self, t: &mut Tape, _: Tier) -> NoiseCase {
         let rate = *t.pick(RATES);
         let fperiod = t.urange(40, 480);
-        let frames = 48000 / fperiod + 1 + t.below(200);
+        // one case in ten is a long utterance (20 s .. 90 s of audio): the noise source must keep
+        // its statistics however long one vocoder has been running
+        let frames = if t.chance(0.1) { (1_000_000 + t.below(3_000_000)) / fperiod } else { 48000 / fperiod + 1 + t.below(200) };
         let lpf_len = if t.chance(0.5) { 0 } else { 1 + 2 * t.below(16) };
         NoiseCase { rate, fperiod, frames, lpf_len }
     }
@@ -333,6 +335,7 @@ impl Prop for NoiseStats {
         rep.metric("abs_var_dev", (var - 1.0).abs());
         rep.nontrivial = true;
         rep.class(if c.lpf_len == 0 { "no-lpf" } else { "lpf" });
+        rep.class_if(out.len() >= 1_000_000, ">=1e6-samples");
         Ok(rep)
     }
 }
